@@ -16,7 +16,7 @@ Record oracles := {
 }.
 
 (* ---------- configuration tables ---------- *)
-Inductive pred := PEq | PSim | PCell (i : nat) | POutput (i : nat).
+Inductive pred := PEq | PStrictEq | PSim | PCell (i : nat) | POutput (i : nat).
 
 Inductive differ :=
 | DfDiff                 (* generic.diff *)
@@ -34,7 +34,13 @@ Record config := {
   c_differs : list (pystr * differ);        c_differ_default : differ;
   c_atomic : list (pystr * bool);
   c_split_mimes : list pystr;
+  c_generic_pred : list pred;               (* generic.default_predicates() *)
+  c_dict_strict : bool;                     (* diff_dicts compares values with strict_equals, not != *)
+  c_mime_strict : bool;                     (* add_mime_diff likewise *)
 }.
+
+Definition value_eqb (strict : bool) (x y : json) : bool :=
+  if strict then json_eqb x y else py_eqb x y.
 
 Fixpoint assoc {A} (k : pystr) (l : list (pystr * A)) : option A :=
   match l with
@@ -78,6 +84,7 @@ Definition same_output_type (x y : json) : bool :=
 Definition eval_pred (O : oracles) (p : pred) (x y : json) : bool :=
   match p with
   | PEq => py_eqb x y
+  | PStrictEq => json_eqb x y
   | PSim => match x, y with JStr s, JStr t => o_sim O s t | _, _ => false end
   | PCell i => o_cell O i x y
   | POutput i => same_output_type x y && o_output O i x y
@@ -349,7 +356,7 @@ Section Differ.
                        if kind_eqb (kind_of va) (kind_of vb) && is_container va then
                          do dd <- diff_default n' va vb;
                          match dd with [] => Ok [] | _ => Ok [DPatch (KS k) dd] end
-                       else if py_eqb va vb then Ok [] else Ok [DReplace (KS k) vb]) ka kb
+                       else if value_eqb (c_dict_strict cfg) va vb then Ok [] else Ok [DReplace (KS k) vb]) ka kb
       | JStr s, JStr t => diff_strings_linewise n' s t
       | _, _ => Err RuntimeError
       end
@@ -360,7 +367,7 @@ Section Differ.
     match n with
     | 0 => Err OutOfFuel
     | S n' =>
-      do shallow <- diff_sequence_bruteforce py_eqb a b;
+      do shallow <- diff_sequence_bruteforce (eval_pred O (hd PEq (c_generic_pred cfg))) a b;
       diff_lists_loop (fun x y => if is_container x then diff_default n' x y else Ok [])
                       a b shallow 0 0 []
     end
@@ -428,7 +435,7 @@ Section Differ.
                      match dd with [] => Ok [] | _ => Ok [DPatch (KS k) dd] end
                    else if existsb (str_eqb (path_or_root path)) (c_pred_keys cfg)
                         then Err RuntimeError
-                   else if py_eqb va vb then Ok [] else Ok [DReplace (KS k) vb]) a b
+                   else if value_eqb (c_dict_strict cfg) va vb then Ok [] else Ok [DReplace (KS k) vb]) a b
     end
 
   (* notebooks.diff_mime_bundle / add_mime_diff (always called without a config) *)
@@ -450,7 +457,7 @@ Section Differ.
                            if existsb (fun tm => starts_with tm mimetype) (c_split_mimes cfg) then
                              do dd <- diff_default n' va vb;
                              match dd with [] => Ok [] | _ => Ok [DPatch (KS k) dd] end
-                           else if py_eqb va vb then Ok [] else Ok [DReplace (KS k) vb]
+                           else if value_eqb (c_mime_strict cfg) va vb then Ok [] else Ok [DReplace (KS k) vb]
                        end) ka kb
       | _, _ => Err TypeError
       end
